@@ -14,6 +14,32 @@ BASELINE_OFF = (
 
 # id -> (level, technique, level text, level note, design ref)
 T = {
+    "C06": (
+        "exploration",
+        "exhaustive enumeration of grid shapes x complete impulse bases through the real FV operators, explicit-loop reference operators",
+        "Every grid shape in the property's bound x two voxel-size forms; each operator (divergence, mass, face_to_cell at a lattice of "
+        "evaluation points, arithmetic/harmonic averages for 4 input forms, tangential/full reconstruction) is executed on the complete "
+        "impulse basis (linear maps: decides the identity for all data of that shape) or a complete small value alphabet (harmonic mean) "
+        "and compared exactly with an explicit-loop model.",
+        "Trusted: numpy; connectivity tables as verified by C07; dyadic data so comparisons are exact. Larger grids than the bound are not covered.",
+        "DESIGN.md §3 C06",
+    ),
+    "C15": (
+        "exploration",
+        "exhaustive enumeration of the finite rule table x all monomials up to the nominal degree",
+        "The set of quadrature rules is finite; every (dimension, order, domain) the API accepts and every monomial with per-variable "
+        "degree <= 2n-1 is evaluated against the closed-form integral. Complete enumeration of a finite space.",
+        "Trusted: float64 arithmetic with tolerance 1e-13.",
+        "DESIGN.md §3 C15",
+    ),
+    "C20": (
+        "exploration",
+        "exhaustive enumeration of the finite axis tables and of all small array/image shapes, cross-checked against the real coordinate system",
+        "All dims x axes x directions x spellings of the helper tables, all array shapes with extents 1..3 for the layout helpers "
+        "(provenance-coded data), and every axis/cut of every 2-D/3-D image shape with extents 1..3 for slice/reduce by name vs by index.",
+        "Trusted: the voxel-step convention written in props/c20.py (itself cross-checked against CoordinateSystem).",
+        "DESIGN.md §3 C20",
+    ),
     "C07": (
         "exploration",
         "exhaustive enumeration of all grid shapes in the bound, explicit-loop reference model of the numbering",
